@@ -1,7 +1,8 @@
 import Fv.Lemmas.TopicGhost
 import Fv.Lemmas.TopicRouteStep
-/-! Exactness: without receiver `close()`, the publishes that entered a mailbox are exactly those
-made while the receiver was subscribed to the topic and its mailbox was not full. -/
+/-! Exactness: as long as `subscribe` is not called on a closed handle, the publishes that entered a
+mailbox are exactly those made while the receiver was subscribed to the topic and its mailbox was
+not full. -/
 namespace Fv.Chan.Topic
 
 /-- the publishes the statement owes to receiver `r` -/
@@ -56,8 +57,12 @@ theorem routed_iff (s : St) (hri : RI True s) (hd : dispAlive s = true) (t : Top
     obtain ⟨x, hx⟩ : ∃ x, s.rxs[r]? = some x := ⟨s.rxs[r], List.getElem?_eq_getElem hlt⟩
     rw [isLive_of_get _ _ _ hx] at hl
     obtain ⟨_, b, c, _⟩ := hri.ok r x hx hl
-    obtain ⟨c1, c2⟩ := c trivial hd t hm
-    simp [subscribedTo, hx, hl, b trivial c2, c1]
+    obtain ⟨c1, c2⟩ := c hd t hm
+    have hcl : x.closed = false := by
+      cases hcl : x.closed with
+      | false => rfl
+      | true => have := b trivial hd hcl; rw [this] at c1; simp at c1
+    simp [subscribedTo, hx, hl, hcl, c1]
   · intro hs
     unfold subscribedTo at hs
     cases hx : s.rxs[r]? with
@@ -80,7 +85,7 @@ structure EI (g : TopicSpec) : Prop where
 theorem EI_ginit (cap : Nat) (k : Kind) : EI (ginit cap k) :=
   ⟨GI_ginit cap k, RI_init cap k True, fun r => by simp [ginit, owed]⟩
 
-theorem EI_gstep (g : TopicSpec) (op : Op) (hop : ∀ r, op ≠ .rClose r) (hg : EI g) : EI (gstep g op).1 := by
+theorem EI_gstep (g : TopicSpec) (op : Op) (hop : OkSub g.st op) (hg : EI g) : EI (gstep g op).1 := by
   refine ⟨GI_gstep g op hg.gi, ?_, ?_⟩
   · show RI True (gnext g op (step g.st op).1 (step g.st op).2).st
     rw [gnext_st]; exact RI_step g.st op (fun _ => hop) hg.ri
@@ -118,13 +123,18 @@ theorem EI_gstep (g : TopicSpec) (op : Op) (hop : ∀ r, op ≠ .rClose r) (hg :
       intro r
       rw [this.1, this.2]; exact hg.exact r
 
-/-- a program without receiver `close()` -/
-def NoRClose (ops : List Op) : Prop := ∀ op ∈ ops, ∀ r, op ≠ .rClose r
+/-- a program that never calls `subscribe` on a receiver handle that is closed at that moment -/
+def OkSubs : St → List Op → Prop
+  | _, [] => True
+  | s, op :: ops => OkSub s op ∧ OkSubs (step s op).1 ops
 
-theorem EI_grun (g : TopicSpec) (ops : List Op) (hops : NoRClose ops) (hg : EI g) : EI (grun g ops) := by
+theorem EI_grun (g : TopicSpec) (ops : List Op) (hops : OkSubs g.st ops) (hg : EI g) : EI (grun g ops) := by
   induction ops generalizing g with
   | nil => exact hg
   | cons op ops ih =>
-    exact ih _ (fun o ho => hops o (List.mem_cons_of_mem _ ho)) (EI_gstep g op (hops op (List.mem_cons_self ..)) hg)
+    have h1 := EI_gstep g op hops.1 hg
+    refine ih _ ?_ h1
+    have : (gstep g op).1.st = (step g.st op).1 := by simp only [gstep, gnext_st]
+    rw [this]; exact hops.2
 
 end Fv.Chan.Topic
